@@ -197,7 +197,46 @@ def gen_prior(rng, src, dst):
                         os.unlink(p)
             except OSError:
                 pass
+    if how == "stale_copy":
+        # links left by an earlier, different way of copying: same name, a text that is some other spelling of the source
+        # link's text (the path relative to the tree's root, the bare name, the same text with a trailing slash)
+        for d, dn, fn in os.walk(src):
+            for n in dn + fn:
+                sp = os.path.join(d, n)
+                tp = os.path.join(dst, os.path.relpath(sp, src))
+                if os.path.islink(sp) and os.path.islink(tp) and rng.random() < 0.7:
+                    text = os.readlink(sp)
+                    if os.path.isabs(text) and text.startswith(src + os.sep):
+                        alt = rng.choice((os.path.relpath(text, src), os.path.basename(text), os.path.relpath(text, src) + os.sep))
+                    else:
+                        alt = rng.choice((os.path.basename(text) or "x", os.path.join(".", text), text + os.sep))
+                    try:
+                        os.unlink(tp)
+                        os.symlink(alt, tp)
+                    except OSError:
+                        pass
     if how in ("extras", "stale_copy") or rng.random() < 0.3:
+        # leftovers whose names differ from a source entry's name only in the case of some letters
+        for d, dn, fn in os.walk(src):
+            tdir = os.path.join(dst, os.path.relpath(d, src))
+            if not os.path.isdir(tdir) or os.path.islink(tdir):
+                continue
+            for n in (dn + fn)[:3]:
+                for variant in {n.swapcase(), n.upper(), n.lower(), n.capitalize()} - {n}:
+                    if rng.random() < 0.5 or os.path.lexists(os.path.join(d, variant)) or os.path.lexists(os.path.join(tdir, variant)):
+                        continue
+                    vp = os.path.join(tdir, variant)
+                    try:
+                        c = rng.choice(("file", "dir", "link"))
+                        if c == "file":
+                            write_file(rng, vp, 9)
+                        elif c == "dir":
+                            os.mkdir(vp)
+                            write_file(rng, os.path.join(vp, "inner"), 3)
+                        else:
+                            os.symlink("elsewhere", vp)
+                    except OSError:
+                        pass
         for i in range(rng.randint(1, 3)):
             d = rng.choice([dst] + [os.path.join(x, n) for x, dn, fn in os.walk(dst) for n in dn if not os.path.islink(os.path.join(x, n))])
             try:
